@@ -74,6 +74,88 @@ pub fn built_still(rng: &mut Rng, max_dim: u32, decorate: bool) -> TestFile {
     TestFile { bytes: serialize(&cs), source: "built-still".into(), model_domain: true }
 }
 
+/// Every chunk kind the decoder parses, with a well-formed body, and that body cut to EVERY prefix length (CRC correct): a parser that
+/// indexes a field it has not checked for (text chunks: keyword NUL flag method NUL NUL text; fcTL / acTL / pHYs ... of fixed layout)
+/// fails exactly at one of these lengths.  One file per (kind, length), the chunk in front of IDAT (and behind it for the kinds allowed there).
+pub fn truncated_body_files(rng: &mut Rng) -> Vec<TestFile> {
+    let mut out = vec![];
+    let img = Img::random(rng, 3, 8, 4, 3);
+    let (raw, _) = scanlines(&img, false, &Filters::Uniform(0), rng);
+    let z = zlib_stream(&raw, &Deflater::Level(6));
+    let zt = zlib_stream(b"compressed text", &Deflater::Level(6));
+    let mut itxt_c = b"Title\0\x01\0en\0Titel\0".to_vec();
+    itxt_c.extend_from_slice(&zt);
+    let mut ztxt = b"Comment\0\0".to_vec();
+    ztxt.extend_from_slice(&zt);
+    let mut iccp = b"icc\0\0".to_vec();
+    iccp.extend_from_slice(&zlib_stream(&[1, 2, 3, 4, 5, 6, 7, 8], &Deflater::Stored(100)));
+    let mut fctl = vec![0u8; 26];
+    fctl[4..8].copy_from_slice(&4u32.to_be_bytes());
+    fctl[8..12].copy_from_slice(&3u32.to_be_bytes());
+    fctl[22..24].copy_from_slice(&1u16.to_be_bytes());
+    let bodies: Vec<(&[u8; 4], Vec<u8>)> = vec![
+        (b"tEXt", b"Title\0some text".to_vec()),
+        (b"zTXt", ztxt),
+        (b"iTXt", b"Title\0\0\0en\0Titel\0plain text".to_vec()),
+        (b"iTXt", itxt_c),
+        (b"iCCP", iccp),
+        (b"gAMA", vec![0, 1, 134, 160]),
+        (b"cHRM", (0..32u8).collect()),
+        (b"sRGB", vec![1]),
+        (b"pHYs", vec![0, 0, 11, 19, 0, 0, 11, 19, 1]),
+        (b"sBIT", vec![5, 6, 5]),
+        (b"bKGD", vec![2]),
+        (b"tRNS", vec![0, 128, 255]),
+        (b"cICP", vec![9, 16, 0, 1]),
+        (b"mDCV", (0..24u8).collect()),
+        (b"cLLI", vec![0, 0, 3, 232, 0, 0, 0, 200]),
+        (b"eXIf", vec![0x4d, 0x4d, 0, 42, 0, 0, 0, 8]),
+        (b"acTL", vec![0, 0, 0, 1, 0, 0, 0, 0]),
+        (b"fcTL", fctl),
+        (b"PLTE", (0..12u8).collect()),
+        (b"IHDR", ihdr(4, 3, 8, 3, 0).data),
+    ];
+    for (ty, body) in &bodies {
+        for n in 0..=body.len() {
+            let cut = RawChunk::new(ty, body[..n].to_vec());
+            let mut cs = vec![];
+            if *ty == b"IHDR" {
+                cs.push(cut.clone());
+            } else {
+                cs.push(ihdr(4, 3, 8, 3, 0));
+            }
+            if *ty == b"acTL" || *ty == b"fcTL" {
+                cs.push(cut.clone());
+                if *ty == b"fcTL" {
+                    cs.insert(1, actl(1, 0));
+                }
+            }
+            if *ty != b"PLTE" && *ty != b"IHDR" {
+                if matches!(*ty, b"tRNS" | b"bKGD") {
+                    cs.push(RawChunk::new(b"PLTE", (0..12u8).collect()));
+                    cs.push(cut.clone());
+                } else if *ty != b"acTL" && *ty != b"fcTL" {
+                    cs.push(cut.clone());
+                    cs.push(RawChunk::new(b"PLTE", (0..12u8).collect()));
+                } else {
+                    cs.push(RawChunk::new(b"PLTE", (0..12u8).collect()));
+                }
+            } else if *ty == b"PLTE" {
+                cs.push(cut.clone());
+            } else {
+                cs.push(RawChunk::new(b"PLTE", (0..12u8).collect()));
+            }
+            cs.push(RawChunk::new(b"IDAT", z.clone()));
+            if matches!(*ty, b"tEXt" | b"zTXt" | b"iTXt" | b"eXIf") {
+                cs.push(cut.clone());
+            }
+            cs.push(RawChunk::new(b"IEND", vec![]));
+            out.push(TestFile { bytes: serialize(&cs), source: "truncated-chunk-body".into(), model_domain: false });
+        }
+    }
+    out
+}
+
 pub fn built_anim(rng: &mut Rng, max_dim: u32) -> TestFile {
     let a = random_anim(rng, max_dim, 4);
     let (cs, _) = anim_chunks(&a, rng);
